@@ -1597,7 +1597,7 @@ MANIFEST = dict(
     'tables (arbitrary small tables symbolic); constructor guards are '
     'transcendental FP: swept concretely; negative indexes documented as '
     'unchecked by the code and outside the property'
-    ' Concrete data-representation / scale / boundary probes of the real'
+    '. Concrete data-representation / scale / boundary probes of the real'
     ' code (dtype, container and memory-layout variants, argument'
     ' immutability, magnitudes) accompany the symbolic runs; they are'
     ' differential runs, not solver verdicts.',
